@@ -320,7 +320,8 @@ impl<R: Read, TSpec> TagIterator<R, TSpec>
                 let path = <TSpec>::get_path_by_id(tag_id);
                 if path.iter().all(|p| matches!(p, PathPart::Id(_))) {
                     //We only know the current path if we read a tag that is non-global
-                    self.tag_stack = path.iter().map(|id| {
+                    //Global masters that are already open stay open, inside the implied ancestors
+                    let implied: Vec<ProcessingTag<TSpec>> = path.iter().map(|id| {
                         match id {
                             PathPart::Id(id) => {
                                 ProcessingTag { 
@@ -333,6 +334,7 @@ impl<R: Read, TSpec> TagIterator<R, TSpec>
                             PathPart::Global(_) => unreachable!()
                         }
                     }).collect();
+                    self.tag_stack.splice(0..0, implied);
                     self.has_determined_doc_path = true;
                 }
             }
